@@ -22,7 +22,36 @@ Prints one JSON line: {cases, distinct, failures:[{signature, scenario, observed
 
 KNOWN_ON_UNCHANGED_TREE  (genuine violations of the literal statement on the unchanged tree; still detected by the
 "odd" family on every run, reported under the top-level key "known" instead of "failures"):
-@@KNOWN@@
+  K1 {"known":"late"}            the program logs into an action after that action finished
+       with start_action(action_type="L") as a: pass
+       a.log("late:msg")
+     top level: lines [1] started, [2] succeeded, [3] late:msg.  The parser yields the task as complete after [2]
+     and forgets it; [3] then starts a second, never-complete task with the same task_uuid whose root is a
+     WrittenAction without start/end (action_type None, status None) holding late:msg: 2 tasks instead of 1.
+     nested (inside another action): in file order the tree is right, but with the same lines shuffled the
+     enclosing task is never reported complete (1 child != end position 2 - 2).
+  K2 {"known":"msg_at"}          a plain message that has a field named "action_type"
+       log_message("m", action_type="zz")
+     Task.add takes any dictionary with a non-null action_type for an action message and reads
+     message_dict["action_status"]: Parser.parse_stream raises KeyError('action_status'); nothing is parsed.
+  K3 {"known":"unused_id"}       a position is taken inside an action and never used
+       with start_action(action_type="P") as p: log_message("m1"); p.serialize_task_id(); log_message("m2")
+       (same with preserve_context(f) whose result is never called)
+     lines [1] started, [2] m1, [4] m2, [5] succeeded: the tree is right, but the task is never reported
+     complete (2 children != 5 - 2); it only comes out of incomplete_tasks() at the end of the stream.
+  K4 {"known":"typed_missing"}   typed action finished without a declared success field
+       T = ActionType("T:act", [Field("tag", f, ""), Field("x", g, "")], [Field("r", g, "")], "")
+       with T(tag=1, x=2): pass           # no add_success_fields(r=...)
+     Logger.write catches the KeyError of the success serializer, drops the end message and logs an
+     eliot:traceback and an eliot:serialization_failure message in its place (in the enclosing action, or as two
+     extra single-message tasks at top level): the action is parsed with status "started", no end message, never
+     complete, and two messages the program did not log appear.
+  K5 {"known":"ser_raises"}      a declared Field serializer raises for the start message
+       B = ActionType("T:bad", [Field("x", raising_serializer, "")], [], "");  with B(x=1): pass
+     same mechanism as K4 for the start message: parsed action has no start message (only the end), is never
+     complete, plus the two substitute messages.
+  All five are only exercised by the dedicated "odd" scenarios (which carry "odd": <name>); the same clauses failing
+  in any other scenario are reported as failures.
 """
 import argparse, json, os, random, sys, tempfile, threading, warnings, zlib
 
@@ -30,7 +59,7 @@ ap = argparse.ArgumentParser(); ap.add_argument("--tier", default="quick"); ap.a
 ap.add_argument("--scenario"); args = ap.parse_args()
 warnings.simplefilter("ignore")
 
-import eliot
+
 from eliot import (start_action, start_task, current_action, log_message, log_call, add_destinations, remove_destination,
                    preserve_context, write_traceback, Message, MessageType, ActionType, Field, fields as eliot_fields,
                    FileDestination, add_global_fields, to_file, register_exception_extractor, Action)
@@ -706,6 +735,7 @@ def run_scenario(sc):
     decoded = []
     for ln in raw:
         try:
+            if ln != ln.strip() or b"\r" in ln: raise ValueError("stray whitespace around the JSON text")
             d = json.loads(ln.decode("utf-8"))
             if not isinstance(d, dict): raise ValueError("not an object")
             decoded.append(d)
@@ -717,7 +747,7 @@ def run_scenario(sc):
     exp_tasks = run.completed + [t for t in run.tasks if id(t) not in done]
     check_forest(run, decoded, exp_tasks, True)
     crc = zlib.crc32(json.dumps(sc, sort_keys=True).encode("utf-8"))
-    if not run.problems and len(decoded) > 2 and (SHUFFLE_ALL or crc % 3 == 0):
+    if not run.problems and len(decoded) > 2 and (SHUFFLE_ALL or crc % 3 == 0 or sc.get("fam") == "odd"):
         shuffled = list(decoded)
         random.Random(crc).shuffle(shuffled)
         n0 = len(run.problems)
